@@ -63,6 +63,9 @@ pub struct ElfSpec {
     pub ext_shstrndx: bool,
     pub overlap: bool,
     pub gap: usize,
+    pub e_type: u64,
+    pub e_machine: u64,
+    pub e_flags: u64,
 }
 #[derive(Clone, Default)]
 pub struct Built {
@@ -184,13 +187,13 @@ pub fn layout(spec: &mut ElfSpec, r: &mut Rng) -> Built {
     {
         let a = if class == 32 { 4 } else { 8 };
         let mut w = W { v: &mut eh, little, fields: &mut fields, base: 0 };
-        w.f("e_type", 3, 2);
-        w.f("e_machine", if class == 32 { 3 } else { 62 }, 2);
+        w.f("e_type", spec.e_type, 2);
+        w.f("e_machine", spec.e_machine, 2);
         w.f("e_version", 1, 4);
         w.f("e_entry", 0x1000, a);
         w.f("e_phoff", phoff as u64, a);
         w.f("e_shoff", shoff as u64, a);
-        w.f("e_flags", 0, 4);
+        w.f("e_flags", spec.e_flags, 4);
         w.f("e_ehsize", ehsize(class) as u64, 2);
         w.f("e_phentsize", if spec.have_phdrs { phentsize(class) as u64 } else { 0 }, 2);
         let phnum = if !spec.have_phdrs { 0 } else if spec.ext_phnum { 0xffff } else { nseg as u64 };
@@ -271,6 +274,11 @@ pub fn random_elf(r: &mut Rng, rich: bool) -> (ElfSpec, Built) {
     let mut sp = ElfSpec { class, little, have_shdrs: r.chance(9, 10), have_phdrs: r.chance(4, 5), tables_early: r.chance(1, 2),
         ext_shnum: r.chance(1, 8), ext_phnum: r.chance(1, 8), ext_shstrndx: r.chance(1, 8), overlap: r.chance(1, 4),
         gap: if r.chance(1, 4) { r.below(24) as usize } else { 0 }, ..Default::default() };
+    // fields no property mentions still vary: code that branches on the kind of object, the machine or its flags
+    // must give the same answers
+    sp.e_type = *r.pick(&[3u64, 3, 2, 1, 4, 4, 0, 0xfe00, 0xff00, 0xffff]);
+    sp.e_machine = *r.pick(&[if class == 32 { 3u64 } else { 62 }, 62, 3, 8, 20, 21, 40, 183, 243, 0, 0xffff]);
+    sp.e_flags = if r.chance(1, 2) { 0 } else { r.edge64() & 0xffff_ffff };
     sp.secs.push(Sec::default());
     let symsz = if class == 32 { 16 } else { 24 };
     let dynsz = if class == 32 { 8 } else { 16 };
@@ -279,6 +287,15 @@ pub fn random_elf(r: &mut Rng, rich: bool) -> (ElfSpec, Built) {
     let want = |r: &mut Rng| if rich { r.chance(3, 4) } else { r.chance(1, 3) };
     // .text / .data / .bss
     if want(r) { let k = r.below(40) as usize; sp.secs.push(sec(b".text", SHT_PROGBITS, r.bytes(k))); }
+    // contents that begin with a well-known magic number: data is data, whatever it looks like
+    if r.chance(1, 3) {
+        let magic: &[u8] = *r.pick(&[&b"ZLIB"[..], b"ZLIB\0\0\0\0\0\0\0\x20", b"\x7fELF", b"\x28\xb5\x2f\xfd", b"\x1f\x8b\x08", b"GNU\0", b"!<arch>\n", b"\x01\0\0\0", b"\0\0\0\x01"]);
+        let mut d = magic.to_vec(); let k = r.below(30) as usize; d.extend(r.bytes(k));
+        let name: &[u8] = *r.pick(&[&b".data"[..], b".debug_info", b".zdebug_info", b".rodata", b".comment"]);
+        let mut s = sec(name, *r.pick(&[SHT_PROGBITS, SHT_PROGBITS, SHT_NOTE, SHT_STRTAB]), d);
+        if r.chance(1, 4) { s.flags = *r.pick(&[2u64, 0x30, 0x800, 0x802]); }
+        sp.secs.push(s);
+    }
     if want(r) { let mut s = sec(b".bss", SHT_NOBITS, vec![]); s.nobits = Some(r.edge64()); sp.secs.push(s); }
     // dynamic symbols with both hash tables
     let have_dynsym = want(r);
@@ -316,6 +333,17 @@ pub fn random_elf(r: &mut Rng, rich: bool) -> (ElfSpec, Built) {
                 let mut s = sec(b".gnu.version_r", SHT_GNU_VERNEED, vb.need); s.link = vstr_i as u32; s.info = m.needs.len() as u32; s.align = 4; sp.secs.push(s);
             }
             if !m.defs.is_empty() || r.chance(1, 2) {
+                // sometimes the definitions name a string table of their own (same contents, rotated by a filler
+                // string, so that an offset read in the wrong table gives another string)
+                let mut dlink = vstr_i;
+                if r.chance(1, 3) {
+                    dlink = sp.secs.len();
+                    let mut alt = b"\0pad_".to_vec(); alt.extend(&sp.secs[vstr_i].data);
+                    sp.secs.push(sec(b".verstr2", SHT_STRTAB, alt));
+                    // (the records keep their offsets: under the right table they now point 5 bytes earlier, i.e. to
+                    //  other text; what the accessor must return is whatever THIS table holds at those offsets)
+                }
+                let vstr_i = dlink;
                 let mut s = sec(b".gnu.version_d", SHT_GNU_VERDEF, vb.def); s.link = vstr_i as u32; s.info = m.defs.len() as u32; s.align = 4; sp.secs.push(s);
             }
         }
@@ -380,6 +408,9 @@ pub fn random_elf(r: &mut Rng, rich: bool) -> (ElfSpec, Built) {
     // section name string table, at a random position among the sections
     let mut shs = sec(b".shstrtab", SHT_STRTAB, vec![]);
     shs.align = 1;
+    // the name table is found by index, not by type or flags
+    if r.chance(1, 5) { shs.flags = *r.pick(&[SHF_COMPRESSED, 0x20, 0x30, 2, 0x802]); }
+    if r.chance(1, 10) { shs.ty = *r.pick(&[SHT_PROGBITS, SHT_NOTE, 8, 8, 0x7000_0000]); }
     let at = r.range(1, sp.secs.len() as u64) as usize;
     // inserting shifts indices: fix links
     for s in sp.secs.iter_mut() { if s.link as usize >= at && (s.ty == SHT_DYNSYM || s.ty == SHT_SYMTAB || s.ty == SHT_HASH || s.ty == SHT_GNU_HASH || s.ty == SHT_GNU_VERSYM || s.ty == SHT_GNU_VERNEED || s.ty == SHT_GNU_VERDEF || s.ty == SHT_DYNAMIC) && s.link != 0 { s.link += 1; } }
@@ -642,7 +673,7 @@ fn reader_spec(r: &mut Rng, benign_faults: bool) -> Value {
 /// (one hard fault at a sampled / at every I/O call index, then the same queries again on the same
 /// stream), "big" (headers claiming huge sizes and counts)
 pub fn stream_family(r: &mut Rng, n: u64, x: &mut Exec, sink: &mut Sink, mode: &str) {
-    for _ in 0..n {
+    for it in 0..n {
         let rich = mode != "faultall" && !r.chance(1, 4);
         let (sp, mut b) = random_elf(r, rich);
         let mut note = vec![];
@@ -713,23 +744,21 @@ pub fn stream_family(r: &mut Rng, n: u64, x: &mut Exec, sink: &mut Sink, mode: &
                     }
                 }
             }
-            // long sessions: N distinct small caller-made ranges on a FRESH stream (N around powers of two: a cache
-            // that reorganises itself at a size threshold does so in the middle of a multi-range accessor), then
-            // the accessors that load several ranges before using them
-            if r.chance(1, 3) && script.len() > 2 && b.bytes.len() > 200 {
+            // long sessions: N distinct caller-made ranges on a FRESH stream (N around every power of two from 2^5
+            // to 2^12, and to 2^16 in long runs: a cache that reorganises itself at a size threshold does so in the
+            // middle of a multi-range accessor), then the accessors that load several ranges before using them.
+            // One `sbulk` event stands for the N reads (spec/Bulk.tla).
+            if script.len() > 2 && b.bytes.len() > 200 {
                 let flen = b.bytes.len() as u64;
-                let base_n = *r.pick(&[62u64, 126, 126, 30]);
-                for n in base_n..base_n + 4 {
+                let m = flen - 70;
+                const TS: [u64; 12] = [32, 64, 128, 256, 512, 1024, 2048, 4096, 8192, 16384, 32768, 65536];
+                let t = TS[(it % if n >= 30 { 12 } else { 8 }) as usize].min(69 * m - 2);
+                for cnt in (t - 6)..=(t + 1) {
                     let mut o = script[0].clone();
                     o["reader"] = json!({"chunk":"full","seed":1,"faults":[]});
                     let evs2 = sink.run(x, &o);
                     if evs2.first().map(|e| e["res"]["out"] != "ok").unwrap_or(true) { break; }
-                    for k in 0..n {
-                        let off = (k * 7) % (flen - 8);
-                        let hh = json!({"sh_name":w4(0),"sh_type":w4(1),"sh_flags":w8(0),"sh_addr":w8(0),"sh_offset":w8(off),"sh_size":w8(1 + k % 5),
-                                        "sh_link":w4(0),"sh_info":w4(0),"sh_addralign":w8(1),"sh_entsize":w8(0)});
-                        sink.run(x, &json!({"op":"sq","name":"section_data","shdr":hh}));
-                    }
+                    sink.run(x, &json!({"op":"sbulk","n":cnt,"m":m}));
                     sink.run(x, &json!({"op":"sq","name":"symbol_table"}));
                     sink.run(x, &json!({"op":"sq","name":"dynamic_symbol_table"}));
                     sink.run(x, &json!({"op":"sq","name":"symbol_version_table","qs":[["req", w8(1)]]}));
